@@ -30,6 +30,29 @@ pub(crate) fn io_event(ev: IoEvent) {
     }
 }
 
+/// One page changing hands inside [`crate::io::pager::Pager`] (C11).
+#[derive(Debug, Clone, Copy, PartialEq, Eq)]
+pub enum PageEvent {
+    /// `allocate_page` handed out `id`; `reused` when it came from the free list rather than from growing the file
+    Alloc { id: u64, reused: bool },
+    /// `dealloc_page` appended `id` to the free list
+    Dealloc { id: u64 },
+}
+
+type PageSink = Box<dyn Fn(PageEvent) + Send + Sync>;
+static PAGE_SINK: RwLock<Option<PageSink>> = RwLock::new(None);
+
+/// Installs (or removes) the sink every page allocation and release is reported to.
+pub fn set_page_sink(sink: Option<PageSink>) {
+    *PAGE_SINK.write() = sink;
+}
+
+pub(crate) fn page_event(ev: PageEvent) {
+    if let Some(sink) = PAGE_SINK.read().as_ref() {
+        sink(ev);
+    }
+}
+
 /// The write-ahead log on its own (C17): append, force, truncate, reopen, read back.
 pub mod wal {
     use crate::{
